@@ -240,7 +240,7 @@ impl WmoWriter {
     ) -> Result<()> {
         let header = ChunkHeader {
             id: chunks::MOHD,
-            size: 60, // Fixed size for header (without padding)
+            size: 64, // SMOHeader is 64 bytes in every supported version
         };
 
         header.write(writer)?;
@@ -262,6 +262,9 @@ impl WmoWriter {
 
         writer.write_u32_le(color_bytes)?;
 
+        // +0x20: wmoID (WMOAreaTable key) - not modelled by WmoRoot
+        writer.write_u32_le(0)?;
+
         // Flags - adjust for version differences
         let mut flags = wmo.header.flags;
 
@@ -272,9 +275,7 @@ impl WmoWriter {
             flags &= !WmoFlags::HAS_SKYBOX;
         }
 
-        writer.write_u32_le(flags.bits())?;
-
-        // Bounding box
+        // +0x24: bounding box
         writer.write_f32_le(wmo.bounding_box.min.x)?;
         writer.write_f32_le(wmo.bounding_box.min.y)?;
         writer.write_f32_le(wmo.bounding_box.min.z)?;
@@ -282,6 +283,10 @@ impl WmoWriter {
         writer.write_f32_le(wmo.bounding_box.max.x)?;
         writer.write_f32_le(wmo.bounding_box.max.y)?;
         writer.write_f32_le(wmo.bounding_box.max.z)?;
+
+        // +0x3C: flags (u16), +0x3E: numLod (u16)
+        writer.write_u16_le(flags.bits() as u16)?;
+        writer.write_u16_le(0)?;
 
         Ok(())
     }
